@@ -102,6 +102,7 @@ impl<T> Queue<T> {
             data: MaybeUninit::new(t),
             next: RawAtomic::null(),
         });
+        vy!(1229, new.as_raw(), 0);
 
         loop {
             // We push onto the tail, so we'll start optimistically by looking there first.
